@@ -30,6 +30,8 @@ def run(res, tier, seed):
     rv = vlib.model_check(res, schedlib.SD, 'Recall', 'Recall_flag.cfg', must_hold=False, deadlock=False)
     if rv.violation != 'OnlyAfterResume':
         raise vlib.HarnessFailure('vacuity control failed: Recall with the flag published first should violate OnlyAfterResume')
+    # task::resume publishes the resume task through a stream and must abort a clear transaction of the arena's state that is in flight (fact probed, PoolState model)
+    schedlib.publish_fact_check(res, vlib.build_harness('h_wake', ['sync/h_wake.cpp']), ('resume_aborts_clear',))
     schedlib.run_scenarios(res, 'C20', 'c20', 120 if not thorough else 2000, seed, threads=(1, 2, 3, 4))     # the 'c20' selection of h_sched includes suspendF3: three suspensions in a row, resumed from a foreign thread, hand-shake words tracked
     # stacks that migrate between an external thread and a real RML worker (a logical thread as well), three suspensions in a row on the same unit, resumed from
     # outside the arena: a continuation is explainable only after its resume call (TraceWake: ResS), every run in a fresh process
